@@ -73,7 +73,16 @@ func runC20(rng *rand.Rand, scale int, out string, shards int, seed int64, corpu
 					pc.Ref.Defines = append(pc.Ref.Defines, d)
 				}
 			}
+			if hung {
+				break
+			}
 			rec := plantedRec{Case: pc, Obs: observe(pc.In), RefObs: observe(pc.Ref)}
+			if rec.Obs.Kind == "skipped" || rec.RefObs.Kind == "skipped" {
+				if rec.Obs.Kind == "timedout" {
+					parse = append(parse, parseRec{pc.In, rec.Obs})
+				}
+				break
+			}
 			rec.Same = sameOutcome(rec.Obs, rec.RefObs)
 			planted = append(planted, rec)
 			sum.note(pc.In, rec.Obs)
@@ -106,6 +115,9 @@ func runC20(rng *rand.Rand, scale int, out string, shards int, seed int64, corpu
 			rec.Case = c
 			in := &input{Files: map[string]string{"m.cfg": c.paramText() + "title " + s + "\n"}, Main: "m.cfg", Defines: c.Defines, IP: []string{""}, Stream: "pp-title"}
 			o := observe(in)
+			if o.Kind == "skipped" {
+				continue
+			}
 			sum.note(in, o)
 			parse = append(parse, parseRec{in, o})
 			rec.PVars = o.PVars
@@ -125,6 +137,9 @@ func runC20(rng *rand.Rand, scale int, out string, shards int, seed int64, corpu
 			}
 			pps = append(pps, rec)
 			continue
+		}
+		if hung {
+			break
 		}
 		outs, errs, pv, perr, pan := cmd.VerifC20Preproc(c.Defines, c.paramText(), c.Strs)
 		rec.Outs, rec.PVars, rec.PErr, rec.Panic = outs, pv, perr, pan
@@ -183,6 +198,9 @@ func runC20(rng *rand.Rand, scale int, out string, shards int, seed int64, corpu
 			g.HasExpect, g.ExpectCls, g.ExpectPos, g.ExpectChain = true, ref.Cls, ref.Pos, ref.Chain
 		}
 		o := observe(g)
+		if o.Kind == "skipped" {
+			break
+		}
 		sum.note(g, o)
 		graphs = append(graphs, graphRec{g, o, ref})
 		parse = append(parse, parseRec{g, o})
